@@ -28,7 +28,7 @@ def kf_match(finding, job, o):
     elif not fnmatch.fnmatch(job.name, finding.get('job', '*')):
         return False
     for pat in finding.get('obligations', []):
-        if fnmatch.fnmatch(o['id'], pat) or pat in o['text'] or pat in o.get('clause', ''):
+        if fnmatch.fnmatch(o['id'], pat) or pat in o['id'] or pat in o['text'] or pat in (o.get('clause') or ''):
             return True
     return False
 
@@ -113,18 +113,24 @@ def run_check(prop, mod, tier, level, only=None):
         undec = [j for j in jobs if j.status == 'undecided']
         for f in known_hits.values():
             print('KNOWN-FINDING: property=%s %s' % (prop, f['what']))
-        for j, o, path, native in violations:
+        for k, (j, o, path, native) in enumerate(violations):
             sfx = '' if native.get('outcome') == 'reproduced' else ' no-failing-input-found'
-            print('VIOLATION property=%s replay=%s%s' % (prop, path, sfx))
-            log('   %s: obligation %s "%s" %s' % (j.name, o['id'], o['text'], o.get('clause', '')))
+            if k < 12 or os.environ.get('CV_VERBOSE'):
+                print('VIOLATION property=%s replay=%s%s' % (prop, path, sfx))
+                log('   %s: obligation %s "%s" %s' % (j.name, o['id'], o['text'], o.get('clause') or ''))
+        if len(violations) > 12 and not os.environ.get('CV_VERBOSE'):
+            log('   ... and %d more failed obligations (replay files under replays/%s/)' % (len(violations) - 12, prop))
         if violations:
             rc = 1
         elif undecided_reason or undec:
             rc = 2
             if undecided_reason:
                 log('UNDECIDED: ' + undecided_reason)
-            for j in undec[:20]:
-                log('UNDECIDED %s: %s' % (j.name, j.reason[:800]))
+            seen = {}
+            for j in undec:
+                seen.setdefault(j.reason[:120], []).append(j)
+            for r, js in list(seen.items())[:8]:
+                log('UNDECIDED (%d groups, e.g. %s): %s' % (len(js), js[0].name, js[0].reason[:900]))
         write_evidence(prop, mod, unit, jobs, tier, seed, level, time.time() - t0, violations, known_hits,
                        undecided_reason, undec)
     finally:
